@@ -468,10 +468,79 @@ fn run_uhttpclient(sc: &Value) -> Value {
     out
 }
 
+/// The Jura service has one client only, the reqwest one (jurav1_client::Client; no in-process TestClient, no `now`
+/// route). It is driven against a real HTTP server on the loopback interface serving every handler the module
+/// exports over an AppState::single / AppState::create built from the scenario's loading scripts: only responses
+/// are recorded (an Err of the client — HTTP 400 whose body does not decode, or a transport failure — in the same
+/// canonical form as run_uhttpclient), so the model follows in lockstep from the loading scripts. Prices and sizes
+/// are strings on the wire: next to every insert the trace carries what the code's own parse::<f64>() makes of the
+/// order that was sent ("inserted", as the exchange-level Jura runner does). "skipped" when loopback is unavailable.
+fn run_jhttpclient(sc: &Value) -> Value {
+    use hj::jurav1_client::{Client, JuraClient};
+    use hj::jurav1_server::*;
+    let mut ds = datasets_of(&sc["datasets"]);
+    let start = s(&sc["start"]);
+    let state = if let Some(name) = start.strip_prefix("single:") {
+        hj::AppState::single(name, ds.remove(name).unwrap())
+    } else {
+        hj::AppState::create(&mut ds)
+    };
+    let data = web::Data::new(Mutex::new(state));
+    let ops: Vec<Value> = arr(&sc["ops"]).clone();
+    let out = actix_web::rt::System::new().block_on(async move {
+        let data2 = data.clone();
+        let srv = match actix_web::HttpServer::new(move || {
+            App::new().app_data(data2.clone()).service(info).service(init).service(fetch_quotes)
+                .service(tick).service(insert_order).service(delete_order)
+        })
+        .workers(1)
+        .bind(("127.0.0.1", 0))
+        {
+            Ok(s) => s,
+            Err(e) => return json!({ "skipped": format!("cannot bind loopback: {e}") }),
+        };
+        let port = srv.addrs()[0].port();
+        let running = srv.run();
+        let handle = running.handle();
+        actix_web::rt::spawn(running);
+        let mut c = Client::new(format!("http://127.0.0.1:{port}"));
+        let mut results = Vec::new();
+        for op in &ops {
+            let r = match s(&op["op"]).as_str() {
+                "tick" => some_or_null(c.tick(u(&op["id"])).await.ok().map(|r| j_tick_json(r.has_next, &r.executed_trades, &r.inserted_orders, Some(&r.triggered_order_ids)))),
+                "fetch" => some_or_null(c.fetch_quotes(u(&op["id"])).await.ok().map(|r| row_json(&r.quotes))),
+                "init" => some_or_null(c.init(s(&op["name"])).await.ok().map(|r| Value::from(r.backtest_id))),
+                "insert" => {
+                    // a constructor panics on an unparsable price before any request is made: outside the model
+                    let o = match catch(|| jura_order_of(&op["order"])) {
+                        Ok(o) => o,
+                        Err(m) => {
+                            results.push(panic_json(&m));
+                            break;
+                        }
+                    };
+                    let sent = jura_order_json(&o);
+                    let mut r = some_or_null(c.insert_order(o, u(&op["id"])).await.ok().map(|_| Value::Null));
+                    r["inserted"] = sent;
+                    r
+                }
+                "delete" => some_or_null(c.delete_order(u(&op["asset"]), u(&op["order_id"]), u(&op["id"])).await.ok().map(|_| Value::Null)),
+                "info" => some_or_null(c.info(u(&op["id"])).await.ok().map(|r| json!({"version": r.version, "dataset": r.dataset}))),
+                _ => panic!("bad op"),
+            };
+            results.push(r);
+        }
+        handle.stop(false).await;
+        json!({ "results": results, "order_size": std::mem::size_of::<rotala::exchange::jura_v1::Order>() })
+    });
+    out
+}
+
 pub fn run(sc: &Value) -> Value {
     match s(&sc["kind"]).as_str() {
         "uclient" => run_uclient(sc),
         "uhttpclient" => run_uhttpclient(sc),
+        "jhttpclient" => run_jhttpclient(sc),
         "uist" => run_uist(sc),
         "jura" => run_jura(sc),
         _ => panic!("bad kind"),
